@@ -14,6 +14,10 @@ def native_domain(contract):
         return [{'confidence_value': v} for v in range(-320, 421)] + [{'confidence_value': v} for v in (-10**9, 10**9, 2**70)]
     labels = {r[2] for sc in K.SCALES.values() for r in sc['rows']} | {l for sc in K.SCALES.values() for l in sc['no_value_labels']}
     extra = {'', ' ', 'none', 'NONE', 'Low ', ' Low', '11', '-1', '00', '1.0', 'High\n', 'Certain\x00', 'x' * 300}
+    # a ring of near misses around EVERY label of every scale: one stray character before / after (newline, carriage return + newline, space, tab, NUL), case changes, a doubled inner space
+    for l in sorted(labels):
+        extra |= {l + '\n', l + '\r\n', l + '\n\n', '\n' + l, l + ' ', ' ' + l, l + '\t', l + '\x00', l.upper(), l.lower(), l.swapcase(), l.replace(' ', '  ', 1), l.replace(' - ', '-'), l + l, l[:-1], l[1:]}
+    extra -= labels
     return [{'scale_value': s} for s in sorted(labels | extra)]
 
 
@@ -42,7 +46,7 @@ def run(chk):
             pre, bad = native_check(c, args, out)
             if bad:
                 return (f'{c.name}#native', f'{c.name}({args}) -> {out[0]} {out[1]!r} violates {bad}', {'input': args, 'outcome': repr(out)})
-        chk.bounded(f'native:{c.name}', native_domain(c), check, classify=lambda a: repr(a), bound='ints -50..150 plus 3 huge; every label of every scale plus 13 near-miss strings')
+        chk.bounded(f'native:{c.name}', native_domain(c), check, classify=lambda a: repr(a), bound='ints -50..150 plus 3 huge; every label of every scale plus 13 near-miss strings and a ring of 16 one-edit near misses around every label')
     # arguments of other kinds are refused, however they print: "unknown labels are refused" does not depend on str() of the argument (positional and keyword calls alike)
     import stix2.confidence.scales as SC
     class Prints:
